@@ -134,16 +134,16 @@ def check(run):
     for i, db in enumerate(dbs):
         lines.append(("open%d" % i, "db %s" % db.path))
         npages = len(db.data) // db.page_size
-        pages = sorted(set([2, 3, npages] + [rng.randrange(2, npages + 1) for _ in range(10 if quick else 40)] + sqlfmt.overflow_pages(db.data, db.page_size)[:4]))
+        pages = sorted(set([2, 3, npages] + [rng.randrange(2, npages + 1) for _ in range(10 if quick else 20)] + sqlfmt.overflow_pages(db.data, db.page_size)[:4]))
         cmds = [c for (j, oid), c in oplist.items() if j == i]
         for pgno in pages:
             lines.append(("%d/fail%d" % (i, pgno), "fail %d" % pgno))
-            for n, cmd in enumerate(rng.sample(cmds, min(len(cmds), 6 if quick else 15))):
+            for n, cmd in enumerate(rng.sample(cmds, min(len(cmds), 6 if quick else 8))):
                 cid = "%d/p%d/%d" % (i, pgno, n)
                 lines.append((cid, cmd))
                 meta3[cid] = (db, cmd, pgno)
         lines.append(("%d/failnone" % i, "fail -"))
-    res3, impl3, model3 = ops.run_cmds("c12-pages", lines, timeout=2400)
+    res3, impl3, model3 = ops.run_cmds("c12-pages", lines, timeout=2400 if quick else 6000)
     for cid, (db, cmd, pgno) in meta3.items():
         run.count()
         dist["always_fail_cases"] += 1
@@ -163,14 +163,14 @@ def check(run):
         lines.append(("open%d" % i, "db %s" % db.path))
         npages = len(db.data) // db.page_size
         ov = sqlfmt.overflow_pages(db.data, db.page_size)
-        pages = sorted(set([p for p in ([2, 3, npages] + ov[:(8 if quick else 60)] + [rng.randrange(2, npages + 1) for _ in range(6 if quick else 40)]) if 2 <= p <= npages]))
+        pages = sorted(set([p for p in ([2, 3, npages] + ov[:(8 if quick else 24)] + [rng.randrange(2, npages + 1) for _ in range(6 if quick else 16)]) if 2 <= p <= npages]))
         cmds = [c for (j, oid), c in oplist.items() if j == i]
         # a zeroed overflow page is met by whatever reads through its chain: every full scan of every tree (low and high level)
         # runs against it, plus a sample of the other operations
         scans = [c for (j, oid), c in oplist.items() if j == i and oid.endswith(("/scan", "/iscan", "/hselect", "/hiselect"))]
         for pgno in pages:
             lines.append(("%d/zero%d" % (i, pgno), "zero %d" % pgno))
-            chosen = rng.sample(cmds, min(len(cmds), 6 if quick else 15))
+            chosen = rng.sample(cmds, min(len(cmds), 6 if quick else 8))
             if pgno in ov:
                 chosen = scans + [c for c in chosen if c not in scans]
             for n, cmd in enumerate(chosen):
@@ -178,7 +178,7 @@ def check(run):
                 lines.append((cid, cmd))
                 meta4[cid] = (db, cmd, pgno)
         lines.append(("%d/zeronone" % i, "zero -"))
-    res4, impl4, model4 = ops.run_cmds("c12-zero", lines, timeout=2400)
+    res4, impl4, model4 = ops.run_cmds("c12-zero", lines, timeout=2400 if quick else 6000)
     for cid, (db, cmd, pgno) in meta4.items():
         run.count()
         dist["zeroed_page_cases"] += 1
